@@ -27,6 +27,45 @@ const (
 	keyCostsCell = "fld[keyCosts](p[0])"
 )
 
+// evictClearRule: sampledLFU.clear empties the accounting on EVERY path - keyCosts replaced by a fresh
+// map and used set to 0, unconditionally. A shortcut ("nothing is charged, nothing to do") keeps the
+// zero-cost keys in the table: after Clear the map is empty but the policy still knows those keys and
+// refuses their next Set as a duplicate. Shared by C06, C13 and C15 (the invariant used == sum(keyCosts)
+// of C03 is not affected: the stale keys cost 0).
+func evictClearRule(c *Ctx, ruleID string) {
+	L, P := c.L, c.P
+	c.Group(ruleID, "sampledLFU.clear#unconditional", func() {
+		fn := P.Fn("ristretto", "sampledLFU", "clear")
+		L.Analysed(fname(fn))
+		tb := newTB(fn)
+		var fresh, zero []ssa.Instruction
+		for _, st := range fieldStoresIn(fn, "sampledLFU", "keyCosts") {
+			if strings.HasPrefix(tb.T(st.Val).String(), "make[map") {
+				fresh = append(fresh, st)
+			}
+		}
+		for _, st := range fieldStoresIn(fn, "sampledLFU", "used") {
+			if isConst(st.Val, "0") {
+				zero = append(zero, st)
+			}
+		}
+		if len(fresh) == 0 || len(zero) == 0 {
+			L.Fail(ruleID, "sampledLFU.clear#unconditional", "clear does not assign a fresh keyCosts map and used = 0", fn.Pos())
+			return
+		}
+		b1, p1 := mustPass(entryPos(fn), isAnyInstr(fresh), nil)
+		b2, p2 := mustPass(entryPos(fn), isAnyInstr(zero), nil)
+		switch {
+		case b1 != nil:
+			L.Fail(ruleID, "sampledLFU.clear#unconditional", "a path through clear keeps the old keyCosts table (block path "+pathString(p1)+"): keys that cost nothing stay known to the policy after Clear and their next Set is refused as a duplicate", instrPos(b1))
+		case b2 != nil:
+			L.Fail(ruleID, "sampledLFU.clear#unconditional", "a path through clear does not zero used (block path "+pathString(p2)+")", instrPos(b2))
+		default:
+			L.Ok(ruleID, "sampledLFU.clear#unconditional", "keyCosts := fresh map and used := 0 on every path", fn.Pos())
+		}
+	})
+}
+
 // accountingInvRule: each writer of sampledLFU.used/keyCosts preserves used == sum(keyCosts)
 // on every path (linear effect summaries). Shared by C03, C06, C13 and C17.
 func accountingInvRule(c *Ctx, ruleID string) {
